@@ -37,7 +37,7 @@ open GV.GoImp GV.Gen.Imp
 
 /-! ### the 8 packages -/
 
-def methods_bls12_377 {BO : Type} (X : Prims BO) : Methods BO where
+def methods_bls12_377 {F BO : Type} [Inhabited F] (X : Prims F BO) : Methods F BO where
   reset := Mimc_bls12_377.Reset X.fZero X.fAdd X.encrypt X.boElement X.fBytes X.fSet X.frHash X.frBE X.BS
   sum := Mimc_bls12_377.Sum X.fZero X.fAdd X.encrypt X.boElement X.fBytes X.fSet X.frHash X.frBE X.BS
   write := Mimc_bls12_377.Write X.fZero X.fAdd X.encrypt X.boElement X.fBytes X.fSet X.frHash X.frBE X.BS
@@ -46,7 +46,7 @@ def methods_bls12_377 {BO : Type} (X : Prims BO) : Methods BO where
   writeString := Mimc_bls12_377.WriteString X.fZero X.fAdd X.encrypt X.boElement X.fBytes X.fSet X.frHash X.frBE X.BS
   pkgSum := Mimc_bls12_377.pkgSum X.fZero X.fAdd X.encrypt X.boElement X.fBytes X.fSet X.frHash X.frBE X.BS
 
-def methods_bls12_381 {BO : Type} (X : Prims BO) : Methods BO where
+def methods_bls12_381 {F BO : Type} [Inhabited F] (X : Prims F BO) : Methods F BO where
   reset := Mimc_bls12_381.Reset X.fZero X.fAdd X.encrypt X.boElement X.fBytes X.fSet X.frHash X.frBE X.BS
   sum := Mimc_bls12_381.Sum X.fZero X.fAdd X.encrypt X.boElement X.fBytes X.fSet X.frHash X.frBE X.BS
   write := Mimc_bls12_381.Write X.fZero X.fAdd X.encrypt X.boElement X.fBytes X.fSet X.frHash X.frBE X.BS
@@ -55,7 +55,7 @@ def methods_bls12_381 {BO : Type} (X : Prims BO) : Methods BO where
   writeString := Mimc_bls12_381.WriteString X.fZero X.fAdd X.encrypt X.boElement X.fBytes X.fSet X.frHash X.frBE X.BS
   pkgSum := Mimc_bls12_381.pkgSum X.fZero X.fAdd X.encrypt X.boElement X.fBytes X.fSet X.frHash X.frBE X.BS
 
-def methods_bls24_315 {BO : Type} (X : Prims BO) : Methods BO where
+def methods_bls24_315 {F BO : Type} [Inhabited F] (X : Prims F BO) : Methods F BO where
   reset := Mimc_bls24_315.Reset X.fZero X.fAdd X.encrypt X.boElement X.fBytes X.fSet X.frHash X.frBE X.BS
   sum := Mimc_bls24_315.Sum X.fZero X.fAdd X.encrypt X.boElement X.fBytes X.fSet X.frHash X.frBE X.BS
   write := Mimc_bls24_315.Write X.fZero X.fAdd X.encrypt X.boElement X.fBytes X.fSet X.frHash X.frBE X.BS
@@ -64,7 +64,7 @@ def methods_bls24_315 {BO : Type} (X : Prims BO) : Methods BO where
   writeString := Mimc_bls24_315.WriteString X.fZero X.fAdd X.encrypt X.boElement X.fBytes X.fSet X.frHash X.frBE X.BS
   pkgSum := Mimc_bls24_315.pkgSum X.fZero X.fAdd X.encrypt X.boElement X.fBytes X.fSet X.frHash X.frBE X.BS
 
-def methods_bls24_317 {BO : Type} (X : Prims BO) : Methods BO where
+def methods_bls24_317 {F BO : Type} [Inhabited F] (X : Prims F BO) : Methods F BO where
   reset := Mimc_bls24_317.Reset X.fZero X.fAdd X.encrypt X.boElement X.fBytes X.fSet X.frHash X.frBE X.BS
   sum := Mimc_bls24_317.Sum X.fZero X.fAdd X.encrypt X.boElement X.fBytes X.fSet X.frHash X.frBE X.BS
   write := Mimc_bls24_317.Write X.fZero X.fAdd X.encrypt X.boElement X.fBytes X.fSet X.frHash X.frBE X.BS
@@ -73,7 +73,7 @@ def methods_bls24_317 {BO : Type} (X : Prims BO) : Methods BO where
   writeString := Mimc_bls24_317.WriteString X.fZero X.fAdd X.encrypt X.boElement X.fBytes X.fSet X.frHash X.frBE X.BS
   pkgSum := Mimc_bls24_317.pkgSum X.fZero X.fAdd X.encrypt X.boElement X.fBytes X.fSet X.frHash X.frBE X.BS
 
-def methods_bn254 {BO : Type} (X : Prims BO) : Methods BO where
+def methods_bn254 {F BO : Type} [Inhabited F] (X : Prims F BO) : Methods F BO where
   reset := Mimc_bn254.Reset X.fZero X.fAdd X.encrypt X.boElement X.fBytes X.fSet X.frHash X.frBE X.BS
   sum := Mimc_bn254.Sum X.fZero X.fAdd X.encrypt X.boElement X.fBytes X.fSet X.frHash X.frBE X.BS
   write := Mimc_bn254.Write X.fZero X.fAdd X.encrypt X.boElement X.fBytes X.fSet X.frHash X.frBE X.BS
@@ -82,7 +82,7 @@ def methods_bn254 {BO : Type} (X : Prims BO) : Methods BO where
   writeString := Mimc_bn254.WriteString X.fZero X.fAdd X.encrypt X.boElement X.fBytes X.fSet X.frHash X.frBE X.BS
   pkgSum := Mimc_bn254.pkgSum X.fZero X.fAdd X.encrypt X.boElement X.fBytes X.fSet X.frHash X.frBE X.BS
 
-def methods_bw6_633 {BO : Type} (X : Prims BO) : Methods BO where
+def methods_bw6_633 {F BO : Type} [Inhabited F] (X : Prims F BO) : Methods F BO where
   reset := Mimc_bw6_633.Reset X.fZero X.fAdd X.encrypt X.boElement X.fBytes X.fSet X.frHash X.frBE X.BS
   sum := Mimc_bw6_633.Sum X.fZero X.fAdd X.encrypt X.boElement X.fBytes X.fSet X.frHash X.frBE X.BS
   write := Mimc_bw6_633.Write X.fZero X.fAdd X.encrypt X.boElement X.fBytes X.fSet X.frHash X.frBE X.BS
@@ -91,7 +91,7 @@ def methods_bw6_633 {BO : Type} (X : Prims BO) : Methods BO where
   writeString := Mimc_bw6_633.WriteString X.fZero X.fAdd X.encrypt X.boElement X.fBytes X.fSet X.frHash X.frBE X.BS
   pkgSum := Mimc_bw6_633.pkgSum X.fZero X.fAdd X.encrypt X.boElement X.fBytes X.fSet X.frHash X.frBE X.BS
 
-def methods_bw6_761 {BO : Type} (X : Prims BO) : Methods BO where
+def methods_bw6_761 {F BO : Type} [Inhabited F] (X : Prims F BO) : Methods F BO where
   reset := Mimc_bw6_761.Reset X.fZero X.fAdd X.encrypt X.boElement X.fBytes X.fSet X.frHash X.frBE X.BS
   sum := Mimc_bw6_761.Sum X.fZero X.fAdd X.encrypt X.boElement X.fBytes X.fSet X.frHash X.frBE X.BS
   write := Mimc_bw6_761.Write X.fZero X.fAdd X.encrypt X.boElement X.fBytes X.fSet X.frHash X.frBE X.BS
@@ -100,7 +100,7 @@ def methods_bw6_761 {BO : Type} (X : Prims BO) : Methods BO where
   writeString := Mimc_bw6_761.WriteString X.fZero X.fAdd X.encrypt X.boElement X.fBytes X.fSet X.frHash X.frBE X.BS
   pkgSum := Mimc_bw6_761.pkgSum X.fZero X.fAdd X.encrypt X.boElement X.fBytes X.fSet X.frHash X.frBE X.BS
 
-def methods_grumpkin {BO : Type} (X : Prims BO) : Methods BO where
+def methods_grumpkin {F BO : Type} [Inhabited F] (X : Prims F BO) : Methods F BO where
   reset := Mimc_grumpkin.Reset X.fZero X.fAdd X.encrypt X.boElement X.fBytes X.fSet X.frHash X.frBE X.BS
   sum := Mimc_grumpkin.Sum X.fZero X.fAdd X.encrypt X.boElement X.fBytes X.fSet X.frHash X.frBE X.BS
   write := Mimc_grumpkin.Write X.fZero X.fAdd X.encrypt X.boElement X.fBytes X.fSet X.frHash X.frBE X.BS
@@ -112,52 +112,52 @@ def methods_grumpkin {BO : Type} (X : Prims BO) : Methods BO where
 def stateMsg (n : Int) : String := "the mimc state expects a state of " ++ toString n ++ " bytes"
 
 /-- the translated methods of ecc/bls12-377/fr/mimc are the reference text (length literal 32) -/
-theorem C14mimcgen_pkg_bls12_377 {BO : Type} (X : Prims BO) : methods_bls12_377 X = refMethods X 32 (stateMsg 32) := by
+theorem C14mimcgen_pkg_bls12_377 {F BO : Type} [Inhabited F] (X : Prims F BO) : methods_bls12_377 X = refMethods X 32 (stateMsg 32) := by
   simp only [methods_bls12_377, refMethods, MimcAll.bls12_377_Reset_same, MimcAll.bls12_377_Sum_same, MimcAll.bls12_377_Write_same, MimcAll.bls12_377_SetState_same,
     MimcAll.bls12_377_State_same, MimcAll.bls12_377_WriteString_same, MimcAll.bls12_377_pkgSum_same]
   rfl
 
 /-- the translated methods of ecc/bls12-381/fr/mimc are the reference text (length literal 32) -/
-theorem C14mimcgen_pkg_bls12_381 {BO : Type} (X : Prims BO) : methods_bls12_381 X = refMethods X 32 (stateMsg 32) := by
+theorem C14mimcgen_pkg_bls12_381 {F BO : Type} [Inhabited F] (X : Prims F BO) : methods_bls12_381 X = refMethods X 32 (stateMsg 32) := by
   simp only [methods_bls12_381, refMethods, MimcAll.bls12_381_Reset_same, MimcAll.bls12_381_Sum_same, MimcAll.bls12_381_Write_same, MimcAll.bls12_381_SetState_same,
     MimcAll.bls12_381_State_same, MimcAll.bls12_381_WriteString_same, MimcAll.bls12_381_pkgSum_same]
   rfl
 
 /-- the translated methods of ecc/bls24-315/fr/mimc are the reference text (length literal 32) -/
-theorem C14mimcgen_pkg_bls24_315 {BO : Type} (X : Prims BO) : methods_bls24_315 X = refMethods X 32 (stateMsg 32) := by
+theorem C14mimcgen_pkg_bls24_315 {F BO : Type} [Inhabited F] (X : Prims F BO) : methods_bls24_315 X = refMethods X 32 (stateMsg 32) := by
   simp only [methods_bls24_315, refMethods, MimcAll.bls24_315_Reset_same, MimcAll.bls24_315_Sum_same, MimcAll.bls24_315_Write_same, MimcAll.bls24_315_SetState_same,
     MimcAll.bls24_315_State_same, MimcAll.bls24_315_WriteString_same, MimcAll.bls24_315_pkgSum_same]
   rfl
 
 /-- the translated methods of ecc/bls24-317/fr/mimc are the reference text (length literal 32) -/
-theorem C14mimcgen_pkg_bls24_317 {BO : Type} (X : Prims BO) : methods_bls24_317 X = refMethods X 32 (stateMsg 32) := by
+theorem C14mimcgen_pkg_bls24_317 {F BO : Type} [Inhabited F] (X : Prims F BO) : methods_bls24_317 X = refMethods X 32 (stateMsg 32) := by
   simp only [methods_bls24_317, refMethods, MimcAll.bls24_317_Reset_same, MimcAll.bls24_317_Sum_same, MimcAll.bls24_317_Write_same, MimcAll.bls24_317_SetState_same,
     MimcAll.bls24_317_State_same, MimcAll.bls24_317_WriteString_same, MimcAll.bls24_317_pkgSum_same]
   rfl
 
 /-- the translated methods of ecc/bn254/fr/mimc are the reference text (length literal 32) -/
-theorem C14mimcgen_pkg_bn254 {BO : Type} (X : Prims BO) : methods_bn254 X = refMethods X 32 (stateMsg 32) := rfl
+theorem C14mimcgen_pkg_bn254 {F BO : Type} [Inhabited F] (X : Prims F BO) : methods_bn254 X = refMethods X 32 (stateMsg 32) := rfl
 
 /-- the translated methods of ecc/bw6-633/fr/mimc are the reference text (length literal 40) -/
-theorem C14mimcgen_pkg_bw6_633 {BO : Type} (X : Prims BO) : methods_bw6_633 X = refMethods X 40 (stateMsg 40) := by
+theorem C14mimcgen_pkg_bw6_633 {F BO : Type} [Inhabited F] (X : Prims F BO) : methods_bw6_633 X = refMethods X 40 (stateMsg 40) := by
   simp only [methods_bw6_633, refMethods, MimcAll.bw6_633_Reset_same, MimcAll.bw6_633_Sum_same, MimcAll.bw6_633_Write_same,
     MimcAll.bw6_633_State_same, MimcAll.bw6_633_WriteString_same, MimcAll.bw6_633_pkgSum_same]
   rfl
 
 /-- the translated methods of ecc/bw6-761/fr/mimc are the reference text (length literal 48) -/
-theorem C14mimcgen_pkg_bw6_761 {BO : Type} (X : Prims BO) : methods_bw6_761 X = refMethods X 48 (stateMsg 48) := by
+theorem C14mimcgen_pkg_bw6_761 {F BO : Type} [Inhabited F] (X : Prims F BO) : methods_bw6_761 X = refMethods X 48 (stateMsg 48) := by
   simp only [methods_bw6_761, refMethods, MimcAll.bw6_761_Reset_same, MimcAll.bw6_761_Sum_same, MimcAll.bw6_761_Write_same,
     MimcAll.bw6_761_State_same, MimcAll.bw6_761_WriteString_same, MimcAll.bw6_761_pkgSum_same]
   rfl
 
 /-- the translated methods of ecc/grumpkin/fr/mimc are the reference text (length literal 32) -/
-theorem C14mimcgen_pkg_grumpkin {BO : Type} (X : Prims BO) : methods_grumpkin X = refMethods X 32 (stateMsg 32) := by
+theorem C14mimcgen_pkg_grumpkin {F BO : Type} [Inhabited F] (X : Prims F BO) : methods_grumpkin X = refMethods X 32 (stateMsg 32) := by
   simp only [methods_grumpkin, refMethods, MimcAll.grumpkin_Reset_same, MimcAll.grumpkin_Sum_same, MimcAll.grumpkin_Write_same, MimcAll.grumpkin_SetState_same,
     MimcAll.grumpkin_State_same, MimcAll.grumpkin_WriteString_same, MimcAll.grumpkin_pkgSum_same]
   rfl
 
 /-- (package, length literal of SetState, translated methods) -/
-def allMethods {BO : Type} (X : Prims BO) : List (String × Int × Methods BO) := [
+def allMethods {F BO : Type} [Inhabited F] (X : Prims F BO) : List (String × Int × Methods F BO) := [
   ("bls12_377", 32, methods_bls12_377 X),
   ("bls12_381", 32, methods_bls12_381 X),
   ("bls24_315", 32, methods_bls24_315 X),
@@ -168,7 +168,7 @@ def allMethods {BO : Type} (X : Prims BO) : List (String × Int × Methods BO) :
   ("grumpkin", 32, methods_grumpkin X)]
 
 /-- **all packages**: every package's translated methods are the reference text with its own length literal -/
-theorem C14mimcgen_all {BO : Type} (X : Prims BO) : ∀ e ∈ allMethods X, e.2.2 = refMethods X e.2.1 (stateMsg e.2.1) := by
+theorem C14mimcgen_all {F BO : Type} [Inhabited F] (X : Prims F BO) : ∀ e ∈ allMethods X, e.2.2 = refMethods X e.2.1 (stateMsg e.2.1) := by
   intro e he
   simp only [allMethods, List.mem_cons, List.not_mem_nil, or_false] at he
   rcases he with rfl | rfl | rfl | rfl | rfl | rfl | rfl | rfl
@@ -194,7 +194,7 @@ theorem C14mimcgen_stateLen_is_frBytes :
 `M` is the record of translated methods of any package (`hM`: by `C14mimcgen_all` / `C14mimcgen_pkg_<pkg>`), `n` its length literal. -/
 
 section
-variable {BO : Type} (P : Params) (bo : BO) (X : Prims BO) (n : Int) (M : Methods BO)
+variable {BO : Type} (P : Params) (bo : BO) (X : Prims Nat BO) (n : Int) (M : Methods Nat BO)
 
 /-- **one call**: every generated method commutes with the abstraction and returns exactly the model's outcome (bytes of Sum /
 State, `(len, nil)` of Write, every error case), keeps the byte order object and the invariant -/
